@@ -551,7 +551,9 @@ func c16Numbers(run *core.Run) {
 				used = append(used, s)
 				fmt.Fprintf(&sb, ` %s="%s"`, attrs[j], s)
 			}
-			sb.WriteString(`/><!-- note --></svg>`)
+			// comments in several positions: after an element, as the only content of an element, between siblings,
+			// inside text, before the root's first child
+			sb.WriteString(`/>` + r.Pick([]string{`<!-- note -->`, `<g id="icons"><!-- note --></g>`, `<g> <!-- note --> </g><rect/>`, `<g><rect/><!-- note --><rect/></g>`, `<text>a<!-- note -->b</text>`, `<defs><!-- note --></defs><g/>`, `<g><!-- note --><!-- second --></g>`}) + `</svg>`)
 			in := sb.String()
 			for _, keepC := range []bool{false, true} {
 				mm := minify.New()
@@ -570,7 +572,7 @@ func c16Numbers(run *core.Run) {
 					return res
 				}
 				check("svg", in, out, err, extract, used)
-				if err == nil && keepC != strings.Contains(string(out), "<!-- note -->") {
+				if err == nil && (keepC != strings.Contains(string(out), "<!-- note -->") || keepC && strings.Count(string(out), "<!--") != strings.Count(in, "<!--")) {
 					cfg := fmt.Sprintf("svg keepcomments=%v", keepC)
 					run.Violation(core.Key(cfg, []byte(in)), fmt.Sprintf("%s: comment handling does not follow the option | in=%s | out=%s", cfg, in, out), map[string]string{"config": cfg, "input": in, "output": string(out)})
 				}
